@@ -211,6 +211,9 @@ pub fn linear_registry() -> Vec<Lin> {
     lin!("SolarTime", 0, NDAYS as i64 * 86400 - 1, 1, None, |o: i64| time_of(o), |t: &SolarTime| ord_time(t)),
     lin!("SolarTerm", 24, 9999 * 24 + 23, 1, None, |o: i64| SolarTerm::from_index((o / 24) as isize, (o % 24) as isize), |t: &SolarTerm| t.get_year() as i64 * 24 + t.get_index() as i64),
     lin!("JulianDay", 1_000_000, 6_000_000, 1, None, |o: i64| JulianDay::from_julian_day(o as f64 + 0.25), |t: &JulianDay| (t.get_day() - 0.25) as i64),
+    // a Julian date with a sub-second fraction (as term instants have): stepping by whole days keeps the fraction exactly
+    // (the ordinal is scaled by 2^20 so that any change of the fraction shows)
+    lin!("JulianDay (fractional)", 1_000_000 * 1048576 + 129_007, 6_000_000 * 1048576 + 129_007, 1048576, None, |o: i64| JulianDay::from_julian_day(o as f64 / 1048576.0), |t: &JulianDay| (t.get_day() * 1048576.0).round() as i64),
     lin!("LunarYear", -1, 9999, 1, None, |o: i64| LunarYear::from_year(o as isize), |t: &LunarYear| t.get_year() as i64),
     lin!("LunarMonth", 0, nlun - 1, 1, None, |o: i64| { let (y, m) = lunlist().at(o as usize); LunarMonth::from_ym(y as isize, m as isize) }, |t: &LunarMonth| lunlist().pos(t.get_year() as i64, t.get_month_with_leap() as i64).map(|p| p as i64).unwrap_or(i64::MIN)),
     lin!("LunarDay", y25, hi_day, 1, None, |o: i64| { let l = sd_idx(cal(), o as usize).get_lunar_day(); let _ = (l.get_solar_day(), l.get_sixty_cycle_day()); l }, |t: &tyme4rs::tyme::lunar::LunarDay| idx_of(&t.get_solar_day()).map(|i| i as i64).unwrap_or(i64::MIN)),
@@ -498,7 +501,7 @@ impl C11 {
       1 => (fl(guard(|| SolarHalfYear::new(yy, u2).map(|x| x.to_string()))), ok(guard(|| SolarHalfYear::from_index(yy, u2).to_string())), Some((1..=9999).contains(&y) && a2 < 2)),
       2 => (fl(guard(|| SolarSeason::new(yy, u2).map(|x| x.to_string()))), ok(guard(|| SolarSeason::from_index(yy, u2).to_string())), Some((1..=9999).contains(&y) && a2 < 4)),
       3 => (fl(guard(|| SolarMonth::new(yy, u2).map(|x| x.to_string()))), ok(guard(|| SolarMonth::from_ym(yy, u2).to_string())), Some((1..=9999).contains(&y) && (1..=12).contains(&a2))),
-      4 => (fl(guard(|| SolarWeek::new(yy, u2, u3, u4).map(|x| format!("{} {}", x, x.get_first_day())))), ok(guard(|| { let x = SolarWeek::from_ym(yy, u2, u3, u4); format!("{} {}", x, x.get_first_day()) })), if (1..=9999).contains(&y) && (1..=12).contains(&a2) {
+      4 => (fl(guard(|| SolarWeek::new(yy, u2, u3, u4).map(|x| format!("{} {}", x, guard(|| x.get_first_day().to_string()).unwrap_or_else(|_| "first day outside the range".into()))))), ok(guard(|| { let x = SolarWeek::from_ym(yy, u2, u3, u4); format!("{} {}", x, guard(|| x.get_first_day().to_string()).unwrap_or_else(|_| "first day outside the range".into())) })), if (1..=9999).contains(&y) && (1..=12).contains(&a2) {
         // weeks of a civil month: ceil((offset of the 1st from the start weekday + days) / 7), from the model calendar
         let c = cal();
         let first = c.index(y, a2, 1).unwrap();
@@ -511,7 +514,7 @@ impl C11 {
       6 => (fl(guard(|| SolarTime::new(yy, u2, u3, u4, u5, u6).map(|x| x.to_string()))), ok(guard(|| SolarTime::from_ymd_hms(yy, u2, u3, u4, u5, u6).to_string())), Some(civil(y, a2, a3) && a4 < 24 && a5 < 60 && a6 < 60)),
       7 => (fl(guard(|| LunarYear::new(yy).map(|x| x.to_string()))), ok(guard(|| LunarYear::from_year(yy).to_string())), Some((-1..=9999).contains(&y))),
       8 => (fl(guard(|| LunarMonth::new(yy, a2 as isize).map(|x| x.to_string()))), ok(guard(|| LunarMonth::from_ym(yy, a2 as isize).to_string())), if (0..=9999).contains(&y) { Some(lunar_month_ok(y, a2)) } else { None }),
-      9 => (fl(guard(|| LunarWeek::new(yy, a2 as isize, u3, u4).map(|x| format!("{} {}", x, x.get_first_day())))), ok(guard(|| { let x = LunarWeek::from_ym(yy, a2 as isize, u3, u4); format!("{} {}", x, x.get_first_day()) })), if lunar_month_ok(y, a2) && y >= 1 && y <= 9998 {
+      9 => (fl(guard(|| LunarWeek::new(yy, a2 as isize, u3, u4).map(|x| format!("{} {}", x, guard(|| x.get_first_day().to_string()).unwrap_or_else(|_| "first day outside the range".into()))))), ok(guard(|| { let x = LunarWeek::from_ym(yy, a2 as isize, u3, u4); format!("{} {}", x, guard(|| x.get_first_day().to_string()).unwrap_or_else(|_| "first day outside the range".into())) })), if lunar_month_ok(y, a2) && y >= 1 && y <= 9998 {
         // weeks of a lunar month: the same count from the month's own first day and length
         let mo = LunarMonth::from_ym(yy, a2 as isize);
         let off = (weekday(lm_first_jdn(&mo)) - a4).rem_euclid(7);
@@ -586,6 +589,11 @@ impl Prop for C11 {
           for nm in &cy.names {
             run_case(env, out, "name", &Case { a: vec![ti as i64], f: vec![], s: vec![nm.to_string()], pre: vec![] }, &ev);
             run_case(env, out, "name", &Case { a: vec![ti as i64], f: vec![], s: vec![format!("{}x", nm)], pre: vec![] }, &ev);
+            // a listed name with white space around it is not a listed name
+            for pad in [format!("{} ", nm), format!(" {}", nm), format!("{}\n", nm), format!("\t{}", nm), format!("{}\u{3000}", nm), format!("{}\r\n", nm)] {
+              out.class("padded_name_candidates");
+              run_case(env, out, "name", &Case { a: vec![ti as i64], f: vec![], s: vec![pad], pre: vec![] }, &ev);
+            }
           }
           // recombinations of the type's own name fragments (prefix of one name + suffix of another): they look like names
           // and must be refused unless they are listed (e.g. a stem with a branch of the other parity)
@@ -628,7 +636,8 @@ impl Prop for C11 {
         // constructors: boundary-heavy argument tuples for the 13 constructible units
         {
           let yr = prop_oneof![3 => 1i64..=9999, 2 => prop_oneof![Just(-2i64), Just(-1), Just(0), Just(1), Just(2), Just(1582), Just(9998), Just(9999), Just(10000), Just(10001)], 1 => -50i64..=10050];
-          let small = |hi: i64| prop_oneof![3 => 0i64..=hi, 1 => Just(hi + 1), 1 => Just(hi + 2), 1 => Just(0i64)];
+          // (a few huge values too: an argument that is narrowed before it is validated wraps into the valid range)
+          let small = |hi: i64| prop_oneof![12 => 0i64..=hi, 4 => Just(hi + 1), 4 => Just(hi + 2), 4 => Just(0i64), 1 => prop_oneof![Just(255i64), Just(256), Just(65535), Just(65536), Just(4294967296i64), Just(i64::MAX)], 2 => (1i64..=hi.max(1), prop_oneof![Just(256i64), Just(65536), Just(4294967296i64)]).prop_map(|(v, w)| v + w)];
           let strat = (0i64..13, yr, prop_oneof![4 => -13i64..=14, 1 => Just(10i64)], small(31), small(23), small(59), small(59)).prop_map(|(t, y, a2, a3, a4, a5, a6)| {
             // weeks: a3 = index 0..7, a4 = start 0..8
             let (a3, a4) = if t == 4 || t == 9 { (a3 % 8, a4 % 9) } else { (a3, a4) };
